@@ -94,3 +94,22 @@ where
         }
     }
 }
+
+/// Verification hook (only with `--cfg tiny_http_verif`): observation of the queue content.
+#[cfg(tiny_http_verif)]
+impl<T> MessagesQueue<T>
+where
+    T: Send + Clone,
+{
+    /// The queue content, oldest first; `None` stands for an unblock token.
+    pub fn verif_snapshot(&self) -> Vec<Option<T>> {
+        let queue = self.queue.lock().unwrap();
+        queue
+            .iter()
+            .map(|c| match c {
+                Control::Elem(v) => Some(v.clone()),
+                Control::Unblock => None,
+            })
+            .collect()
+    }
+}
